@@ -557,6 +557,13 @@ pub fn job_program(job: &Sexp) -> String {
         && matches!(base.main.params[0].ty, Type::Array(_, _) | Type::ArrayConst(_, _));
     let mut rng = Rng(seed.wrapping_mul(0x9E3779B97F4A7C15) | 1);
     let mut per_param: Vec<Vec<Vec<bool>>> = vec![];
+    // replay: inputs given explicitly as (given ("bits of param 0" "bits of param 1" ..) ..)
+    if let Some(g) = job.try_field("given") {
+        for one in g.args() {
+            per_param.push(one.list().iter().map(|s| s.text().bytes().map(|c| c == b'1').collect()).collect());
+        }
+    }
+    let ninputs = if per_param.is_empty() { ninputs } else { 0 };
     for k in 0..ninputs {
         let mut one = vec![];
         for p in base.main.params.iter() {
